@@ -1,17 +1,234 @@
 //go:build verif
 
+// C08, tool round trip: the real makePassword of galenectl (package main,
+// hence reached through an overlay-added file instead of an import) is
+// enumerated over algorithm x parameters x passwords; every produced record
+// goes through its JSON form into a group.Password, whose Match must accept
+// the hashed password and no other password of the set.
+//
+// The enumeration runs only when VERIF_C08_ROUNDTRIP is set (by the C08
+// harness, which builds and runs this binary); it prints one line
+// "C08RT {json}" and exits.
 package main
 
 import (
+	"bytes"
+	"encoding/json"
 	"fmt"
 	"os"
+	"sort"
+	"strconv"
+	"strings"
+	"time"
+
+	"github.com/jech/galene/group"
 )
 
+type verifC08Viol struct {
+	Signature string `json:"signature"`
+	What      string `json:"what"`
+	Case      any    `json:"case"`
+}
+
+type verifC08Report struct {
+	Makes        int64          `json:"makes"`
+	Evaluations  int64          `json:"evaluations"`
+	Outcomes     []string       `json:"outcomes"`
+	Exhaustive   bool           `json:"exhaustive"`
+	Unsupported  []string       `json:"unsupported"`
+	MakeErrors   int64          `json:"make_errors"`
+	NulEquiv     int64          `json:"nul_equivalent_pairs_observed_matching"`
+	ShortKeySkip int64          `json:"short_key_pairs_not_demanded"`
+	ShortKeyHit  int64          `json:"short_key_pairs_observed_matching"`
+	Violations   []verifC08Viol `json:"violations"`
+	Samples      []any          `json:"samples"`
+	Bound        string         `json:"bound"`
+}
+
+type verifC08Case struct {
+	Algorithm  string `json:"algorithm"`
+	Iterations int    `json:"iterations"`
+	Length     int    `json:"length"`
+	SaltLen    int    `json:"saltlen"`
+	Cost       int    `json:"cost"`
+	Password   string `json:"password"` // name of the password
+	Stored     string `json:"stored,omitempty"`
+}
+
+// verifC08HMACEquivalent: the key HMAC-SHA256 actually uses for a password of at
+// most 64 bytes: the password zero-padded to the block size (RFC 2104).  Two
+// such passwords that differ only in trailing NUL bytes are the same PBKDF2
+// input; like bcrypt's 72-byte truncation this is a property of the
+// algorithm, so the pair is not demanded to be told apart.
+func verifC08HMACEquivalent(a, b string) bool {
+	if len(a) > 64 || len(b) > 64 {
+		return false
+	}
+	return strings.TrimRight(a, "\x00") == strings.TrimRight(b, "\x00")
+}
+
 func init() {
-	if os.Getenv("VERIF_C08_ROUNDTRIP") == "" {
+	tier := os.Getenv("VERIF_C08_ROUNDTRIP")
+	if tier == "" {
 		return
 	}
-	p, err := makePassword("a", "bcrypt", 0, 0, 0, 4)
-	fmt.Println(p.Type, err)
+	budget, _ := strconv.Atoi(os.Getenv("VERIF_C08_BUDGET"))
+	if budget <= 0 {
+		budget = 30
+	}
+	deadline := time.Now().Add(time.Duration(budget) * time.Second)
+	thorough := tier == "thorough"
+
+	type pw struct{ name, value string }
+	s71 := strings.Repeat("x", 71)
+	pws := []pw{{"empty", ""}, {"a", "a"}, {"b", "b"}, {"a-nul", "a\x00"},
+		{"s71", s71}, {"s72", s71 + "x"}}
+
+	iterations := []int{1, 2, 4096}
+	lengths := []int{1, 16, 32}
+	salts := []int{0, 1, 8}
+	costs := []int{4, 5}
+	if !thorough {
+		costs = []int{4}
+	}
+
+	rep := verifC08Report{Exhaustive: true}
+	rep.Bound = fmt.Sprintf("algorithms {pbkdf2,bcrypt,plain,wildcard} x iterations %v x key length %v x salt length %v x bcrypt cost %v x %d passwords, every password of the set tried against every record", iterations, lengths, salts, costs, len(pws))
+	outcomes := map[string]bool{}
+	seenSig := map[string]bool{}
+	violate := func(sig, what string, c verifC08Case) {
+		if seenSig[sig] {
+			return
+		}
+		seenSig[sig] = true
+		rep.Violations = append(rep.Violations, verifC08Viol{sig, what, c})
+	}
+
+	run := func(alg string, it, length, salt, cost int, p pw) bool {
+		if time.Now().After(deadline) {
+			rep.Exhaustive = false
+			return false
+		}
+		c := verifC08Case{alg, it, length, salt, cost, p.name, ""}
+		made, err := makePassword(p.value, alg, it, length, salt, cost)
+		if err != nil {
+			if err.Error() == "unknown password type" {
+				found := false
+				for _, u := range rep.Unsupported {
+					found = found || u == alg
+				}
+				if !found {
+					rep.Unsupported = append(rep.Unsupported, alg)
+				}
+				return true
+			}
+			rep.MakeErrors++
+			outcomes[alg+"/make-error"] = true
+			return true
+		}
+		rep.Makes++
+		// the stored form: what hash-password prints and set-password PUTs
+		var buf bytes.Buffer
+		if err := json.NewEncoder(&buf).Encode(made); err != nil {
+			violate("C08/tool-roundtrip/not-encodable/"+alg,
+				fmt.Sprintf("makePassword result cannot be encoded: %v", err), c)
+			return true
+		}
+		c.Stored = strings.TrimSpace(buf.String())
+		var stored group.Password
+		if err := json.Unmarshal(buf.Bytes(), &stored); err != nil {
+			violate("C08/tool-roundtrip/not-decodable/"+alg,
+				fmt.Sprintf("the server cannot parse the tool's output %s: %v", c.Stored, err), c)
+			return true
+		}
+		vec := make([]byte, len(pws))
+		for i, q := range pws {
+			ok, merr := stored.Match(q.value)
+			rep.Evaluations++
+			vec[i] = '0'
+			if ok {
+				vec[i] = '1'
+			}
+			if q.name == p.name {
+				if !ok || merr != nil {
+					violate("C08/tool-roundtrip/own-password-rejected/"+alg,
+						fmt.Sprintf("%s record made for password %q does not verify that password (ok=%v err=%v): %s", alg, p.value, ok, merr, c.Stored), c)
+				}
+				continue
+			}
+			if alg == "wildcard" {
+				continue // not a hash: matches everything by design
+			}
+			if !ok {
+				continue
+			}
+			if alg == "pbkdf2" && length < 16 {
+				// a 1-byte key cannot separate passwords (pigeonhole,
+				// 1/256 per pair, salt-dependent): observed, not demanded
+				rep.ShortKeyHit++
+				continue
+			}
+			if alg == "pbkdf2" && verifC08HMACEquivalent(p.value, q.value) {
+				rep.NulEquiv++
+				continue
+			}
+			violate("C08/tool-roundtrip/other-password-accepted/"+alg+"/"+p.name+"~"+q.name,
+				fmt.Sprintf("%s record made for password %q also verifies %q: %s", alg, p.value, q.value, c.Stored), c)
+		}
+		if alg == "pbkdf2" && length < 16 {
+			rep.ShortKeySkip += int64(len(pws) - 1)
+		}
+		if alg == "pbkdf2" && length < 16 {
+			// chance collisions of 1-byte keys are not part of the outcome
+			for i, q := range pws {
+				if q.name != p.name {
+					vec[i] = '?'
+				}
+			}
+		}
+		o := fmt.Sprintf("%s/%s/%s", alg, p.name, vec)
+		if !outcomes[o] && len(rep.Samples) < 3 {
+			rep.Samples = append(rep.Samples, map[string]any{"case": c, "match_vector": string(vec)})
+		}
+		outcomes[o] = true
+		return true
+	}
+
+	func() {
+		for _, alg := range []string{"pbkdf2", "bcrypt", "plain"} {
+			for _, it := range iterations {
+				for _, l := range lengths {
+					for _, s := range salts {
+						for _, cost := range costs {
+							if !thorough {
+								// quick: the parameters an algorithm ignores
+								// are fixed to their first value
+								if alg != "pbkdf2" && (it != iterations[0] || l != lengths[0] || s != salts[0]) {
+									continue
+								}
+								if alg == "pbkdf2" && cost != costs[0] {
+									continue
+								}
+							}
+							for _, p := range pws {
+								if !run(alg, it, l, s, cost, p) {
+									return
+								}
+							}
+						}
+					}
+				}
+			}
+		}
+		// wildcard records exist only for the empty password
+		run("wildcard", 0, 0, 0, 0, pws[0])
+	}()
+
+	for o := range outcomes {
+		rep.Outcomes = append(rep.Outcomes, o)
+	}
+	sort.Strings(rep.Outcomes)
+	b, _ := json.Marshal(rep)
+	fmt.Printf("C08RT %s\n", b)
 	os.Exit(0)
 }
